@@ -23,8 +23,8 @@ type C15Genome struct {
 }
 
 func GenC15Genome() *rapid.Generator[C15Genome] {
-	plain := genGenomeSpec(GenomeCfg{MinGenes: 1})
-	modular := genGenomeSpec(GenomeCfg{MinGenes: 1, Modules: true})
+	plain := genGenomeSpec(GenomeCfg{MinGenes: 1, Big: true})
+	modular := genGenomeSpec(GenomeCfg{MinGenes: 1, Modules: true, Big: true})
 	return rapid.Custom(func(t *rapid.T) C15Genome {
 		if rapid.Bool().Draw(t, "yaml") {
 			return C15Genome{G: modular.Draw(t, "genome"), YAML: true}
